@@ -54,7 +54,8 @@ func (m *machine) lowerInsertLane(x, y ssa.Value, index byte, ret ssa.Value, lan
 		m.insert(m.allocateInstr().asXmmRmRImm(sseOpcodeInsertps, index<<4, yy, tmpDst))
 	case ssa.VecLaneF64x2:
 		if index == 0 {
-			m.insert(m.allocateInstr().asXmmUnaryRmR(sseOpcodeMovsd, yy, tmpDst))
+			// The register form of MOVSD keeps the upper half of the destination: it is used, not only defined.
+			m.insert(m.allocateInstr().asXmmRmR(sseOpcodeMovsd, yy, tmpDst))
 		} else {
 			m.insert(m.allocateInstr().asXmmRmR(sseOpcodeMovlhps, yy, tmpDst))
 		}
